@@ -304,7 +304,7 @@ func TestVerif_C11_policy(t *testing.T) {
 	hdrPool := []string{"Authorization", "Cookie", "X-Custom", "X-Multi", "X-Other", "Www-Authenticate", "Host", "Referer"}
 	c := C()
 	var prevCl *Client
-	var prevPs []c11Pol
+	var prevPs, prevAlias, aliasPs []c11Pol
 	var prevLine0, prevScen string
 	n := verifh.N(15000, 300000)
 	for i := 0; i < n; i++ {
@@ -378,10 +378,11 @@ func TestVerif_C11_policy(t *testing.T) {
 		if prevCl != nil && r.Intn(2) == 0 {
 			// the SAME configured client and policy instances judge another, unrelated redirect:
 			// a policy is a function of (req, via) only, whatever it was asked before
-			cl, ps, line0, scen = prevCl, prevPs, prevLine0, prevScen
+			cl, ps, line0, scen, aliasPs = prevCl, prevPs, prevLine0, prevScen, prevAlias
 			s.Count("reused-policy-instance")
 		} else if r.Intn(3) == 0 {
 			fam := c11NewFamily(C(), c11DefaultPols)
+			fam.writes = true // here the caller also overwrites its arrays after the calls
 			fam.grow(r, func() []c11Pol {
 				if r.Intn(2) == 0 {
 					return ps
@@ -396,6 +397,20 @@ func TestVerif_C11_policy(t *testing.T) {
 			if fam.emptied {
 				s.Count("family:empty-set-call")
 			}
+			if fam.shared {
+				s.Count("args:clients-from-caller-owned-array")
+			}
+			if fam.callerWrote {
+				s.Count("args:caller-wrote-after-call")
+			}
+			aliasPs = nil
+			if ap := fam.aliasPols(j); ap != nil {
+				s.Count("args:evaluated-client-set-from-slice")
+				if c11EncPols(ap) != c11EncPols(ps) {
+					aliasPs = append([]c11Pol{}, ap...)
+					s.Count("args:slice-content-changed-since-call")
+				}
+			}
 			scen = fam.show(j) + " ; "
 		} else {
 			real := make([]RedirectPolicy, len(ps))
@@ -404,9 +419,10 @@ func TestVerif_C11_policy(t *testing.T) {
 			}
 			c.SetRedirectPolicy(real...)
 			line0 = "c11policyx " + c11EncPols(ps)
+			aliasPs = nil
 			s.Count("direct")
 		}
-		prevCl, prevPs, prevLine0, prevScen = cl, ps, line0, scen
+		prevCl, prevPs, prevLine0, prevScen, prevAlias = cl, ps, line0, scen, aliasPs
 		for _, p := range ps {
 			s.Count("pol:" + p.kind)
 			if p.kind != "nil" && p.kind != "no" && p.kind != "max" {
@@ -424,6 +440,30 @@ func TestVerif_C11_policy(t *testing.T) {
 				}
 				return nil
 			}
+		}
+		// Known behaviour before fixes/C11-4: the closure reads the caller's slice at redirect time. When
+		// that slice holds something else by now, what a client configured (with literal arguments) from
+		// its CURRENT content answers is computed first, only to recognise exactly that behaviour.
+		probes := append([]string{"x-custom"}, hdrPool...)
+		aliasAns := ""
+		if aliasPs != nil {
+			refReal := make([]RedirectPolicy, len(aliasPs))
+			for j, p := range aliasPs {
+				refReal[j] = p.real()
+			}
+			ref := C().SetRedirectPolicy(refReal...)
+			q := *hreq
+			q.Header = hreq.Header.Clone()
+			var e error
+			verifh.Safely(func() { e = ref.httpClient.CheckRedirect(&q, hvia) })
+			d := 0
+			switch {
+			case e == http.ErrUseLastResponse:
+				d = 2
+			case e != nil:
+				d = 1
+			}
+			aliasAns = c11DecisionName[d] + " " + c11ShowProbes(func(k string) []string { return q.Header.Values(k) }, probes)
 		}
 		if p, bad := verifh.Safely(func() { err = check(hreq, hvia) }); bad {
 			s.Crash("policy", scen+c11ShowPols(ps)+" req="+req, p, "")
@@ -444,7 +484,6 @@ func TestVerif_C11_policy(t *testing.T) {
 			s.Count("legacy-decision")
 		}
 		s.Count("decision:" + c11DecisionName[dec])
-		probes := append([]string{"x-custom"}, hdrPool...)
 		encVia := make([]string, len(hvia))
 		for j, q := range hvia {
 			encVia[j] = c11EncReq(q)
@@ -452,9 +491,14 @@ func TestVerif_C11_policy(t *testing.T) {
 		line := line0 + " " + c11EncReq(hreq) + " " + strings.Join(encVia, ";") + " " +
 			c11EncHeaders(rh) + " " + c11EncHeaders(vh) + " " + verifh.HexList(probes)
 		ans := c11DecisionName[dec] + " " + c11ShowProbes(func(k string) []string { return hreq.Header.Values(k) }, probes)
+		if aliasPs != nil && ans == aliasAns { // takes precedence: the list that was enforced is not ps at all
+			class = "policy-arg-aliased"
+			s.Count("args:answers-like-current-slice-content")
+		}
 		s.Case(line, ans, dec == want, class, nontriv,
 			scen+c11ShowPols(ps)+" req="+req+" via="+strings.Join(via, ",")+" -> "+c11DecisionName[dec])
 	}
 	s.FinishRequire("direct", "reused-policy-instance", "family:original", "family:set-on-clone", "family:clone-of-clone-inherits", "family:clone-inherits,parent-reconfigured-later", "family:clone-inherits", "family:empty-set-call", "pol:nil", "pol:no", "pol:max", "pol:samehost", "pol:samedomain", "pol:ahost", "pol:adomain", "pol:copy", "decision:allow", "decision:deny", "decision:uselast",
-		"decoy:host-field", "decoy:host-field=other-authority", "decoy:userinfo", "decoy:https", "decoy:method")
+		"decoy:host-field", "decoy:host-field=other-authority", "decoy:userinfo", "decoy:https", "decoy:method",
+		"args:clients-from-caller-owned-array", "args:caller-wrote-after-call", "args:evaluated-client-set-from-slice", "args:slice-content-changed-since-call")
 }
